@@ -69,6 +69,9 @@ pub enum Class {
     GlobalArrayOfClosures,
     GlobalArrayOfBoxes,
     InplaceLambdaCapturingArray,
+    MainClosureCapturingRecordOfFnConstants,
+    MainClosureCapturingArrayOfFnConstants,
+    ArrayOfFnConstantsReturnedToGlobal,
     // ---- known findings on the pinned tree (rate per dsp call in `rate()`)
     LocalCaptureBound,
     ReturnedBound,
@@ -102,6 +105,9 @@ pub enum Class {
     RecordClosureLocal,
     ArrayOfClosuresPassedToHelper,
     TupleClosureAndBox,
+    ArrayOfFnConstantsReturnedToDsp,
+    LocalArrayOfFnConstants,
+    LocalTupleOfFnConstants,
     // ---- known findings of the other clause: a handle released twice / used after release
     AliasOfBox,
     ReturnedLetBoundBox,
@@ -109,7 +115,7 @@ pub enum Class {
     ArrayOfClosuresReturnedFromHelper,
 }
 
-pub const STABLE: [Class; 48] = [
+pub const STABLE: [Class; 51] = [
     Class::LocalNoCapture,
     Class::InplaceCapturing,
     Class::GlobalClosureCalled,
@@ -158,6 +164,9 @@ pub const STABLE: [Class; 48] = [
     Class::GlobalArrayOfClosures,
     Class::GlobalArrayOfBoxes,
     Class::InplaceLambdaCapturingArray,
+    Class::MainClosureCapturingRecordOfFnConstants,
+    Class::MainClosureCapturingArrayOfFnConstants,
+    Class::ArrayOfFnConstantsReturnedToGlobal,
 ];
 /// Constructs that release a heap object twice (logged `invalid HeapIdx`) or use it after release
 /// (`BoxLoad: invalid heap index`) on the pinned tree. One scenario in twelve contains exactly one
@@ -168,7 +177,7 @@ pub const UAF: [Class; 4] = [
     Class::EscapingClosureCapturesLetBoundBox,
     Class::ArrayOfClosuresReturnedFromHelper,
 ];
-pub const LEAKY: [Class; 32] = [
+pub const LEAKY: [Class; 35] = [
     Class::LocalCaptureBound,
     Class::ReturnedBound,
     Class::ReturnedInplace,
@@ -201,6 +210,9 @@ pub const LEAKY: [Class; 32] = [
     Class::RecordClosureLocal,
     Class::ArrayOfClosuresPassedToHelper,
     Class::TupleClosureAndBox,
+    Class::ArrayOfFnConstantsReturnedToDsp,
+    Class::LocalArrayOfFnConstants,
+    Class::LocalTupleOfFnConstants,
 ];
 
 impl Class {
@@ -290,6 +302,12 @@ impl Class {
             Class::ArrayOfClosuresPassedToHelper => "array-of-lambdas-passed-to-a-helper-that-selects-one",
             Class::TupleClosureAndBox => "tuple-of-a-closure-and-a-box-bound-in-dsp",
             Class::ArrayOfClosuresReturnedFromHelper => "array-of-closures-returned-from-a-helper",
+            Class::MainClosureCapturingRecordOfFnConstants => "closure-made-by-main-capturing-a-record-of-function-constants",
+            Class::MainClosureCapturingArrayOfFnConstants => "closure-made-by-main-capturing-an-array-of-function-constants",
+            Class::ArrayOfFnConstantsReturnedToGlobal => "array-of-function-constants-returned-from-a-helper-to-a-global",
+            Class::ArrayOfFnConstantsReturnedToDsp => "array-of-function-constants-returned-from-a-helper-to-dsp",
+            Class::LocalArrayOfFnConstants => "array-of-function-constants-built-in-dsp",
+            Class::LocalTupleOfFnConstants => "tuple-of-function-constants-built-in-dsp",
         }
     }
     /// (closures, heap objects) retained per dsp call on the pinned tree. For `SchedSelfNamed`
@@ -303,6 +321,7 @@ impl Class {
             Class::LocalTupleOfBoxes | Class::MatchTailDropped | Class::LocalArrayOfBoxes => (0, 2),
             Class::RecordClosureLocal | Class::ArrayOfClosuresPassedToHelper => (1, 1),
             Class::TupleClosureAndBox => (1, 2),
+            Class::ArrayOfFnConstantsReturnedToDsp | Class::LocalArrayOfFnConstants | Class::LocalTupleOfFnConstants => (2, 2),
             Class::ClosureCapturingClosure => (2, 1),
             Class::ClosureCapturingBox => (1, 1),
             Class::ReturnedClosureCapturingBox => (1, 2),
@@ -508,6 +527,36 @@ impl Inst {
                     "fn mkh{i}(q){{\n  |x| x * q\n}}\nlet fh{i} = mkh{i}({k})\nfn once{i}(h:(float)->float, x:float){{\n  (|a| h(a) + 1.0)(x)\n}}\n"
                 ),
                 format!("  let r{i} = once{i}(fh{i}, now);\n"),
+                format!("r{i}"),
+            ),
+            Class::MainClosureCapturingRecordOfFnConstants => (
+                format!("fn tri{i}(p){{\n  1.0 - p * 2.0\n}}\nfn mkv{i}(){{\n  let ops = {{shape = tri{i}, gain = |x| x * {k}}}\n  |p| ops.gain(ops.shape(p))\n}}\nlet v{i} = mkv{i}()\n"),
+                format!("  let r{i} = v{i}(0.25) + now;\n"),
+                format!("r{i}"),
+            ),
+            Class::MainClosureCapturingArrayOfFnConstants => (
+                format!("fn tri{i}(p){{\n  1.0 - p * 2.0\n}}\nfn saw{i}(p){{\n  p * 2.0 - 1.0\n}}\nfn mkb{i}(){{\n  let shapes = [tri{i}, saw{i}]\n  |j,p| shapes[j](p)\n}}\nlet bank{i} = mkb{i}()\n"),
+                format!("  let r{i} = bank{i}(now % 2.0, {k});\n"),
+                format!("r{i}"),
+            ),
+            Class::ArrayOfFnConstantsReturnedToGlobal => (
+                format!("fn tri{i}(p){{\n  1.0 - p * 2.0\n}}\nfn saw{i}(p){{\n  p * 2.0 - 1.0\n}}\nfn shapes{i}(){{\n  [tri{i}, saw{i}]\n}}\nlet fs{i} = shapes{i}()\n"),
+                format!("  let r{i} = fs{i}[now % 2.0]({k});\n"),
+                format!("r{i}"),
+            ),
+            Class::ArrayOfFnConstantsReturnedToDsp => (
+                format!("fn tri{i}(p){{\n  1.0 - p * 2.0\n}}\nfn saw{i}(p){{\n  p * 2.0 - 1.0\n}}\nfn shapes{i}(){{\n  [tri{i}, saw{i}]\n}}\n"),
+                format!("  let fs{i} = shapes{i}();\n  let r{i} = fs{i}[now % 2.0]({k});\n"),
+                format!("r{i}"),
+            ),
+            Class::LocalArrayOfFnConstants => (
+                format!("fn tri{i}(p){{\n  1.0 - p * 2.0\n}}\nfn saw{i}(p){{\n  p * 2.0 - 1.0\n}}\n"),
+                format!("  let fs{i} = [tri{i}, saw{i}];\n  let r{i} = fs{i}[now % 2.0]({k});\n"),
+                format!("r{i}"),
+            ),
+            Class::LocalTupleOfFnConstants => (
+                format!("fn tri{i}(p){{\n  1.0 - p * 2.0\n}}\nfn saw{i}(p){{\n  p * 2.0 - 1.0\n}}\n"),
+                format!("  let sel{i} = (tri{i}, saw{i});\n  let r{i} = sel{i}.0({k}) + sel{i}.1(now);\n"),
                 format!("r{i}"),
             ),
             Class::MacroPipePartial => (
